@@ -13,13 +13,12 @@ EXPLANATION = (
     "Lean theorems for every commutative ring, dimension and word: wordValue of nil/append/inverse letter/free "
     "reduction/formal inverse; compose_hom functoriality with instances conjugate, dual, astype, subgroup, tensor "
     "(= Kronecker), symmetric square, gln/sln adjoint; Fox fundamental formula and cocycle*coboundary = 1 - rho(r). "
-    "The model (GT.Model.Words/Rep) is executed over Q and Z on the same assignment histories / words as the "
+    "The model (GT.Model.Words/Rep) is executed over Q, Z and Q(i) on the same assignment histories / words as the "
     "real Representation class and compared; float/complex/int oracles evaluate the laws on the implementation.")
 ASSUMPTIONS = [
     "numpy.linalg.inv returns the inverse (contract InvertOK); IEEE rounding of matrix products within "
     "1e-9*(1+prod of spectral norms of the letters)",
     "ASCII generator names (str.lower/upper)",
-    "Fox calculus / differential only for parse_simple representations (utils.words works character by character)",
 ]
 
 
@@ -52,6 +51,9 @@ def run_words(inp):
          "inv": [W.invert_gen(x) for x in NAMES if x.isascii()],
          "fox": H.guard(lambda: {k: int(v) for k, v in W.fox_word_derivative(g, w).items()})}
     rep = R.Representation(parse_simple=False)
+    names = ["a1", "b", "A1", "B", "cc"]
+    tw = tuple(names["abABc".index(c) if c in "abABc" else 4] for c in w)
+    o["foxt"] = H.guard(lambda: [[list(k), int(v)] for k, v in W.fox_word_derivative("a1", tw).items()])
     o["parse"] = [list(rep.parse_word(w, simple=True)), rep.parse_word("*".join(w) + "*(" + u + ")", simple=False),
                   rep.parse_word(u, simple=False)]
     val = []
@@ -73,6 +75,8 @@ def lean_words(inp, obs):
     for nm in NAMES:
         if nm.isascii():
             ops += [{"op": "c05.invgen", "g": nm}, {"op": "c05.valid", "g": nm}]
+    names = ["a1", "b", "A1", "B", "cc"]
+    ops.append({"op": "c05.fox", "g": "a1", "wl": [names["abABc".index(c) if c in "abABc" else 4] for c in w]})
     return ops
 
 
@@ -89,9 +93,15 @@ def judge_words(inp, obs, lr):
         if lr[3].get("err") != H.exc_name(fox):
             return {"expected": lr[3], "observed": fox, "tags": {"fn": "fox", "err": True}}
     else:
-        model = {k: int(c) for k, c in lr[3]["ok"]}
+        model = {"".join(k): int(c) for k, c in lr[3]["ok"]}
         if model != fox:
             return {"expected": model, "observed": fox, "tags": {"fn": "fox"}}
+    ft, mt = obs["foxt"], lr[-1]
+    if "err" in mt or H.exc_name(ft):
+        if mt.get("err") != H.exc_name(ft):
+            return {"expected": mt, "observed": ft, "tags": {"fn": "fox", "tuple_words": True, "err": True}}
+    elif {tuple(k): int(c) for k, c in mt["ok"]} != {tuple(k): v for k, v in ft}:
+        return {"expected": mt["ok"], "observed": ft, "tags": {"fn": "fox", "tuple_words": True}}
     for k in range(3):
         if ok(4 + k) != obs["parse"][k]:
             return {"expected": ok(4 + k), "observed": obs["parse"][k], "tags": {"fn": "parse_word", "k": k}}
@@ -115,8 +125,8 @@ def _word_list(rng, spec, n_long=6, exhaustive=3):
     rng.shuffle(ex)
     ws += ex[:40]
     for _ in range(n_long):
-        k = rng.choice([6, 10, 20, 40, 60]) if spec["ring"] == "Q" else rng.choice([4, 6, 8, 10])
-        ws.append(H.rand_letters(rng, alph, k))
+        k = rng.choice([6, 10, 20, 40, 60]) if spec["ring"] != "Z" else rng.choice([4, 6, 8, 10])
+        ws.append(H.rand_letters(rng, alph, H.cap_len(spec, k)))
     # unknown letters -> KeyError on both sides
     if rng.random() < 0.3:
         ws.append(H.rand_letters(rng, alph, 2) + ["q" if simple else "q7"])
@@ -132,13 +142,17 @@ def gen_rep(rng, n):
                     h["inv"] = False
         if rng.random() < 0.05:   # a singular assignment -> LinAlgError
             m = H.dec(spec["hist"][-1]["m"])
-            m[0] = [F(0)] * spec["n"]
+            m[0] = [F(0) if spec["ring"] != "C" else H.CF(0)] * spec["n"]
             spec["hist"][-1]["m"] = H.enc(m)
         if rng.random() < 0.05:   # an invalid name -> ValueError
             spec["hist"].append({"g": rng.choice(["aB", "1", "a*b", ""]), "m": spec["hist"][0]["m"], "inv": True})
         if rng.random() < 0.04:   # a wrong shape -> ValueError
             k = spec["n"] + 1
             spec["hist"].append({"g": "a", "m": H.enc(H.fident(k)), "inv": True})
+        if rng.random() < 0.4:
+            alph = H.spec_names(spec)
+            spec["relations"] = [H.join_word(H.rand_letters(rng, alph, rng.randint(1, 4)), spec["simple"])
+                                 for _ in range(rng.randint(1, 2))]
         yield {"spec": spec, "words": _word_list(rng, spec)}
 
 
@@ -147,12 +161,13 @@ def run_rep(inp):
     rep = H.build_rep(spec)
     out = {"keys": list(rep.generators), "asym": list(rep.asym_gens()), "vals": [], "bounds": []}
     for w in inp["words"]:
-        v = H.guard(lambda: np.asarray(rep[w["s"]], dtype=float).tolist())
+        v = H.guard(lambda: H.asl(rep[w["s"]], spec["ring"]))
         out["vals"].append(v)
         out["bounds"].append(H.norm_bound(rep, w["l"]))
     ok = [w["s"] for w, v in zip(inp["words"], out["vals"]) if not H.exc_name(v)]
-    out["elements"] = H.guard(lambda: np.asarray(rep.elements(ok), dtype=float).tolist()) if ok else []
-    out["gens"] = {k: np.asarray(v, dtype=float).tolist() for k, v in rep.generators.items()}
+    out["elements"] = H.guard(lambda: H.asl(rep.elements(ok), spec["ring"])) if ok else []
+    out["gens"] = {k: H.asl(v, spec["ring"]) for k, v in rep.generators.items()}
+    out["rels"] = list(rep.relations)
     return out
 
 
@@ -174,10 +189,13 @@ def judge_rep(inp, obs, lr):
     if keys != obs["keys"]:
         return {"expected": keys, "observed": obs["keys"], "tags": {"what": "generator keys"}}
     for k, m in qs[0]["ok"]:
-        if not H.mclose(obs["gens"][k], Q.decf(m), 10.0 * float(np.max(np.abs(Q.decf(m)))) ** 2):
+        if not H.mclose(obs["gens"][k], H.decm(m), 10.0 * float(np.max(np.abs(H.decm(m)))) ** 2):
             return {"expected": {k: m}, "observed": obs["gens"][k], "tags": {"what": "stored generator", "inverse": k not in [h["g"] for h in inp["spec"]["hist"]]}}
     if qs[1]["ok"] != obs["asym"]:
         return {"expected": qs[1]["ok"], "observed": obs["asym"], "tags": {"what": "asym_gens"}}
+    if obs.get("rels", []) != list(inp["spec"].get("relations", [])):
+        return {"expected": {"relations": inp["spec"].get("relations", [])}, "observed": obs.get("rels"),
+                "tags": {"what": "relations of a fresh representation", "rel_mode": inp["spec"].get("rel_mode")}, "property_failure": True}
     good = []
     for w, v, b, r in zip(inp["words"], obs["vals"], obs["bounds"], qs[2:]):
         ev = H.exc_name(v)
@@ -185,10 +203,10 @@ def judge_rep(inp, obs, lr):
             if r.get("err") != ev:
                 return {"expected": r, "observed": v, "tags": {"what": "word error", "word": w["s"]}}
             continue
-        if not H.mclose(v, Q.decf(r["ok"]), b):
-            return {"expected": r["ok"], "observed": v, "tags": {"what": "word value", "len": len(w["l"]), "simple": inp["spec"]["simple"]},
+        if not H.mclose(v, H.decm(r["ok"]), b):
+            return {"expected": r["ok"], "observed": v, "tags": {"what": "word value", "len": len(w["l"]), "simple": inp["spec"]["simple"], "ring": inp["spec"]["ring"]},
                     "word": w["s"]}
-        good.append((Q.decf(r["ok"]), b))
+        good.append((H.decm(r["ok"]), b))
     if good:
         if H.exc_name(obs["elements"]) or len(obs["elements"]) != len(good):
             return {"expected": "elements(words) has one matrix per word", "observed": obs["elements"], "tags": {"what": "elements"}}
@@ -209,13 +227,15 @@ def gen_derived(rng, n):
     for i in range(n):
         kind = KINDS[i % len(KINDS)]
         ring = "Z" if (kind == "astype" or rng.random() < 0.2) and kind != "sym2" else "Q"
+        if kind != "astype" and rng.random() < 0.3:
+            ring = "C"
         nmax = {"tensor": 3, "sym2": 4, "gln_adjoint": 3, "sln_adjoint": 3}.get(kind, 5)
         dim = rng.randint(2 if kind == "sln_adjoint" else 1, nmax)
         simple = rng.random() < 0.7
-        if kind == "subgroup_noinv":
-            simple = True      # formal_inverse is character based (multi-character names: known limitation)
         spec = H.rand_spec(rng, ring=ring, simple=simple, n=dim, names=H.rand_names(rng, simple, rng.randint(1, 3)))
         alph = H.spec_names(spec)
+        spec["relations"] = [H.join_word(H.rand_letters(rng, alph, rng.randint(1, 4)), simple) for _ in range(rng.randint(0, 2))]
+        H.no_int32(spec)      # Kronecker squares of int32 matrices overflow after a few letters
         inp = {"kind": kind, "spec": spec}
         q = {"q": "derived", "kind": kind}
         if kind.startswith("conjugate"):
@@ -235,7 +255,7 @@ def gen_derived(rng, n):
         if kind == "tensor":
             p = rng.randint(1, 3)
             other = H.rand_spec(rng, ring=ring, simple=simple, n=p, names=[h["g"] for h in spec["hist"]], reassign=False)
-            other["hist"] = [dict(h, m=H.enc(H.gen_matrix(rng, p, ring))) for h in spec["hist"]]
+            other["hist"] = [{"g": h["g"], "inv": h["inv"], "m": H.enc(H.gen_matrix(rng, p, ring))} for h in spec["hist"]]
             inp["other"] = other
             q["other"] = H.lean_spec(other)
         if kind.startswith("subgroup"):
@@ -244,7 +264,8 @@ def gen_derived(rng, n):
             evsimple = simple
         if kind in ("tensor", "sym2"):
             alph = H.letters_of([g for g in alph if g.lower() == g])
-        ws = H.all_words(alph[:4], 2)[:12] + [H.rand_letters(rng, alph, rng.choice([3, 5, 8])) for _ in range(3)]
+        ws = H.all_words(alph[:4], 2)[:12] + [H.rand_letters(rng, alph, min(rng.choice([3, 5, 8]), 5 if H.has_int(spec) else 8))
+                                              for _ in range(3)]
         if kind.startswith("subgroup") and len(names) > 0:
             ws = [w for w in ws]
         inp["words"] = [{"s": H.join_word(w, evsimple), "l": w} for w in ws]
@@ -287,9 +308,10 @@ def _derive(rep, inp):
 def run_derived(inp):
     rep = H.build_rep(inp["spec"])
     d = _derive(rep, inp)
-    out = {"keys": list(d.generators), "vals": [], "bounds": []}
+    out = {"keys": list(d.generators), "vals": [], "bounds": [],
+           "rels": [list(d.parse_word(r)) for r in d.relations]}
     for w in inp["words"]:
-        out["vals"].append(H.guard(lambda: np.asarray(d[w["s"]], dtype=float).tolist()))
+        out["vals"].append(H.guard(lambda: H.asl(d[w["s"]], inp["spec"]["ring"])))
         out["bounds"].append(H.norm_bound(d, w["l"]))
     return out
 
@@ -313,8 +335,10 @@ def judge_derived(inp, obs, lr):
         return None
     if r["ok"]["gens"] != obs["keys"]:
         return {"expected": r["ok"]["gens"], "observed": obs["keys"], "tags": dict(tags, what="keys")}
+    if r["ok"]["rels"] != obs["rels"]:
+        return {"expected": r["ok"]["rels"], "observed": obs["rels"], "tags": dict(tags, what="relations")}
     for w, v, b, m in zip(inp["words"], obs["vals"], obs["bounds"], r["ok"]["vals"]):
-        if H.exc_name(v) or not H.mclose(v, Q.decf(m), b):
+        if H.exc_name(v) or not H.mclose(v, H.decm(m), b):
             return {"expected": m, "observed": v, "tags": dict(tags, what="value"), "word": w["s"]}
     return None
 
@@ -322,28 +346,44 @@ def judge_derived(inp, obs, lr):
 # =====================================================================================
 # corr: Fox calculus on representations
 # =====================================================================================
+FOX_NAMES = [(True, "a"), (True, "ab"), (True, "abc"), (True, "abcd"), (True, "xy"),
+             (False, ["a1", "b1"]), (False, ["x", "yy", "zzz"]), (False, ["gen"]), (False, ["s1", "s2", "s3", "s4"]),
+             (False, ["a", "ab", "b"])]
+
+
 def gen_fox(rng, n):
     for i in range(n):
-        ring = rng.choice(["Q", "Q", "Z"])
-        names = list(rng.choice(["a", "ab", "abc", "abcd", "xy"]))
-        spec = H.rand_spec(rng, ring=ring, simple=True, n=rng.randint(1, 4), names=names, reassign=rng.random() < 0.3,
+        ring = rng.choice(["Q", "Q", "Z", "C"])
+        simple, names = rng.choice(FOX_NAMES)
+        names = list(names)
+        spec = H.rand_spec(rng, ring=ring, simple=simple, n=rng.randint(1, 4), names=names, reassign=rng.random() < 0.3,
                            kind=rng.choice(["uni", "orth", "diag"]))
         alph = H.spec_names(spec)
-        rels = ["".join(H.rand_letters(rng, alph, rng.choice([1, 2, 3, 4, 6, 9, 14]))) for _ in range(rng.randint(1, 3))]
+        rl = [H.rand_letters(rng, alph, H.cap_len(spec, rng.choice([1, 2, 3, 4, 6, 9, 14]))) for _ in range(rng.randint(1, 3))]
         if rng.random() < 0.1:
-            rels.append("")        # IndexError
-        spec["relations"] = rels
-        yield {"spec": spec, "w": rng.choice(rels), "g": rng.choice(alph)}
+            rl.append([])        # IndexError
+        spec["relations"] = [H.join_word(r, simple) for r in rl]
+        k = rng.randrange(len(rl))
+        yield {"spec": spec, "w": spec["relations"][k], "g": rng.choice(alph), "rl": rl}
+
+
+def _rel_letters(inp):
+    """relators as lists of generator names (older corpus entries carry only the strings)"""
+    if "rl" in inp:
+        return inp["rl"]
+    simple = inp["spec"]["simple"]
+    return [list(r) if simple else [g for g in r.replace("(", "*").replace(")", "*").split("*") if g]
+            for r in inp["spec"]["relations"]]
 
 
 def run_fox(inp):
     rep = H.build_rep(inp["spec"])
-    n = inp["spec"]["n"]
-    out = {"diff": H.guard(lambda: np.asarray(rep.differential(inp["w"]), dtype=float).tolist()),
-           "diffat": H.guard(lambda: np.asarray(rep.differential(inp["w"], generator=inp["g"]), dtype=float).tolist()),
-           "cocycle": H.guard(lambda: np.asarray(rep.cocycle_matrix(), dtype=float).tolist()),
-           "coboundary": H.guard(lambda: np.asarray(rep.coboundary_matrix(), dtype=float).tolist()),
-           "bound": max(H.norm_bound(rep, list(r)) for r in inp["spec"]["relations"]) * 20}
+    ring = inp["spec"]["ring"]
+    out = {"diff": H.guard(lambda: H.asl(rep.differential(inp["w"]), ring)),
+           "diffat": H.guard(lambda: H.asl(rep.differential(inp["w"], generator=inp["g"]), ring)),
+           "cocycle": H.guard(lambda: H.asl(rep.cocycle_matrix(), ring)),
+           "coboundary": H.guard(lambda: H.asl(rep.coboundary_matrix(), ring)),
+           "bound": max(H.norm_bound(rep, r) for r in _rel_letters(inp)) * 20}
     return out
 
 
@@ -355,7 +395,7 @@ def lean_fox(inp, obs):
 
 
 def _hcat(blocks):
-    return np.concatenate([Q.decf(b) for b in blocks], axis=-1)
+    return np.concatenate([H.decm(b) for b in blocks], axis=-1)
 
 
 def judge_fox(inp, obs, lr):
@@ -363,9 +403,9 @@ def judge_fox(inp, obs, lr):
         return {"expected": lr[0], "observed": obs, "tags": {"setup": True}}
     qs = lr[0]["ok"]
     model = {}
-    for key, r, build in [("diff", qs[0], _hcat), ("diffat", qs[1], Q.decf),
+    for key, r, build in [("diff", qs[0], _hcat), ("diffat", qs[1], H.decm),
                           ("cocycle", qs[2], lambda rows: np.concatenate([_hcat(b) for b in rows], axis=0)),
-                          ("coboundary", qs[3], lambda bl: np.concatenate([Q.decf(b) for b in bl], axis=0))]:
+                          ("coboundary", qs[3], lambda bl: np.concatenate([H.decm(b) for b in bl], axis=0))]:
         e = H.exc_name(obs[key])
         if e or "err" in r:
             if r.get("err") != e:
@@ -384,8 +424,10 @@ def gen_hom(rng, n):
     for i in range(n):
         spec = H.rand_spec(rng)
         alph = H.spec_names(spec)
-        u = H.rand_letters(rng, alph, rng.choice([0, 1, 2, 3, 5, 8, 13]))
-        v = H.rand_letters(rng, alph, rng.choice([0, 1, 2, 3, 5, 8, 13]))
+        u = H.rand_letters(rng, alph, H.cap_len(spec, rng.choice([0, 1, 2, 3, 5, 8, 13])) // (2 if H.cap_len(spec, 99) < 99 else 1))
+        v = H.rand_letters(rng, alph, H.cap_len(spec, rng.choice([0, 1, 2, 3, 5, 8, 13])) // (2 if H.cap_len(spec, 99) < 99 else 1))
+        if rng.random() < 0.3:
+            spec["relations"] = [H.join_word(H.rand_letters(rng, alph, rng.randint(1, 4)), spec["simple"])]
         yield {"spec": spec, "u": u, "v": v, "cplx": spec["ring"] == "Q" and rng.random() < 0.4,
                "phase": [rng.randint(-3, 3), rng.randint(1, 3)]}
 
@@ -427,12 +469,16 @@ def run_hom(inp):
     if simple:
         upd("formal_inverse", rep[W.formal_inverse(j(u))] @ rep[j(u)], np.eye(n), H.norm_bound(rep, u) ** 2)
     upd("elements", rep.elements([j(u), j(v), j(u + v)])[2], rep[j(u + v)], b)
-    return {"worst": worst, "reduced_len": len(red)}
+    return {"worst": worst, "reduced_len": len(red),
+            "rels_ok": inp["cplx"] or list(rep.relations) == list(inp["spec"].get("relations", []))}
 
 
 def judge_hom(inp, obs, lr):
     if "exc" in obs:
         return {"expected": "laws evaluate", "observed": obs, "tags": {"exc": obs["exc"], "simple": inp["spec"]["simple"]}}
+    if not obs.get("rels_ok", True):
+        return {"expected": "a representation has exactly the relators it was given", "observed": "other relators",
+                "tags": {"law": "relations", "rel_mode": inp["spec"].get("rel_mode")}}
     for k, e in obs["worst"].items():
         if not e <= 1e-8:
             return {"expected": f"{k} law within 1e-8 (relative to norm bound)", "observed": e,
@@ -455,13 +501,17 @@ def gen_dor(rng, n):
         simple = kind == "hyperbolic" or rng.random() < 0.7
         ring = "Z" if kind == "astype" or (kind not in ("sym2", "hyperbolic") and rng.random() < 0.3) else "Q"
         spec = H.rand_spec(rng, ring=ring, simple=simple, n=dim, kind="orth" if kind == "hyperbolic" else None)
+        H.no_int32(spec)
         if ring == "Z":   # exact-integer generators whose float inverse is usually not exactly representable
             for h in spec["hist"]:
                 h["m"] = H.enc(H.unimodular(rng, dim, rng.randint(dim, 2 * dim + 2)))
         alph = H.spec_names(spec)
-        yield {"kind": kind, "spec": spec, "w": H.rand_letters(rng, alph, rng.choice([0, 1, 2, 4, 7])),
+        if kind not in ("hyperbolic",) and rng.random() < 0.5:
+            spec["relations"] = [H.join_word(H.rand_letters(rng, alph, rng.randint(1, 4)), simple) for _ in range(rng.randint(1, 2))]
+        yield {"kind": kind, "spec": spec, "w": H.rand_letters(rng, alph, min(rng.choice([0, 1, 2, 4, 7]), 4 if H.has_int(spec) else 7)),
                "C": H.enc(H.gen_matrix(rng, dim, "Q")), "sub": [H.rand_letters(rng, alph, rng.randint(1, 3)) for _ in range(2)],
-               "other": [H.enc(H.gen_matrix(rng, 2, "Q")) for _ in spec["hist"]]}
+               "other": [H.enc(H.gen_matrix(rng, 2, "Q")) for _ in spec["hist"]], "sub_inv": rng.random() < 0.5,
+               "ci": rng.random() < 0.5, "assign_wrapped": rng.random() < 0.6}
 
 
 def _sym2_ref(A):
@@ -489,7 +539,12 @@ def run_dor(inp):
     A = np.asarray(rep[w], dtype=float)
     Ai = np.linalg.inv(A)
     C = H.tonp(inp["C"])        # float conjugator / test vector also for integer representations
-    ev = lambda d, s=None: np.asarray(d[w if s is None else s])
+    made = []        # (derived representation, relators it must have)
+    rels = list(spec.get("relations", []))
+
+    def ev(d, inherits=True):
+        made.append((d, rels if inherits else []))
+        return np.asarray(d[w])
     if kind == "copy":
         got, want = ev(R.Representation(rep)), A
     elif kind == "conjugate":
@@ -497,16 +552,17 @@ def run_dor(inp):
     elif kind == "dual":
         got, want = ev(rep.dual()), Ai.T
     elif kind == "compose":
-        got, want = ev(rep.compose(lambda M: np.kron(M, M))), np.kron(A, A)
+        got, want = ev(rep.compose(lambda M: np.kron(M, M), compute_inverses=inp.get("ci", False))), np.kron(A, A)
     elif kind == "tensor":
         oth = R.Representation(parse_simple=simple)
         for h, m in zip(spec["hist"], inp["other"]):
             oth[h["g"]] = H.tonp(m)
-        got, want = ev(rep.tensor_product(oth)), np.kron(A, np.asarray(oth[w], dtype=float))
+        got, want = ev(rep.tensor_product(oth), False), np.kron(A, np.asarray(oth[w], dtype=float))
     elif kind == "sym2":
-        got, want = ev(rep.symmetric_square()), _sym2_ref(A)
+        got, want = ev(rep.symmetric_square(), False), _sym2_ref(A)
     elif kind in ("gln_adjoint", "sln_adjoint"):
-        d = rep.gln_adjoint() if kind == "gln_adjoint" else rep.sln_adjoint()
+        ci = inp.get("ci", False)
+        d = rep.gln_adjoint(compute_inverses=ci) if kind == "gln_adjoint" else rep.sln_adjoint(compute_inverses=ci)
         got = ev(d)
         # Ad(A) X = A X A^-1 on the basis used by the library: check the action on a random (traceless) X
         X = C - (np.trace(C) / n) * np.eye(n) if kind == "sln_adjoint" else C
@@ -515,25 +571,42 @@ def run_dor(inp):
         got, want = got @ coords, (Y.reshape(-1) if kind == "gln_adjoint" else Y.reshape(-1)[:-1])
     elif kind == "subgroup":
         subw = [H.join_word(s, simple) for s in inp["sub"]]
-        d = rep.subgroup(subw)
+        d = rep.subgroup(subw, compute_inverse=inp.get("sub_inv", True))
+        made.append((d, []))
         got = np.asarray(d["abA"])
         want = np.asarray(rep[subw[0]]) @ np.asarray(rep[subw[1]]) @ np.linalg.inv(np.asarray(rep[subw[0]], dtype=float))
     elif kind == "astype":
         got, want = ev(rep.astype(float)), A
-    elif kind == "projective":
-        from geometry_tools import projective
-        pr = projective.ProjectiveRepresentation(rep)
+    elif kind in ("projective", "hyperbolic"):
+        from geometry_tools import projective, hyperbolic
+        cls, wrap = ((projective.ProjectiveRepresentation, projective.Transformation) if kind == "projective"
+                     else (hyperbolic.HyperbolicRepresentation, hyperbolic.Isometry))
+        if inp.get("assign_wrapped"):
+            # generators assigned as wrapped objects (unwrap_func on the way in, wrap_func on the way out)
+            pr = cls(parse_simple=simple)
+            for h in spec["hist"]:
+                pr[h["g"]] = wrap(H.tonp(h["m"], spec["ring"]).astype(float), column_vectors=True)
+            made.append((pr, []))
+        else:
+            pr = cls(rep)
+            made.append((pr, rels))
         got, want = np.asarray(pr[w].matrix).T, A
         comp = pr.elements([w, w])
         if not np.allclose(np.asarray(comp.matrix)[1].T, A, atol=1e-7 * (1 + np.abs(A).max())):
             return {"err": float("inf"), "what": "elements"}
-    elif kind == "hyperbolic":
-        from geometry_tools import hyperbolic
-        hr = hyperbolic.HyperbolicRepresentation(rep)
-        got, want = np.asarray(hr[w].matrix).T, A
+        if kind == "projective":
+            # conjugation by a wrapped transformation: w -> C^-1 rho(w) C
+            cj = pr.conjugate(projective.Transformation(C, column_vectors=True))
+            made.append((cj, list(pr.relations)))
+            cw = np.asarray(cj[w].matrix).T
+            if not np.allclose(cw, np.linalg.inv(C) @ A @ C, atol=1e-7 * (1 + np.abs(A).max()) * (1 + np.abs(C).max()) ** 2 * 50):
+                return {"err": float("inf"), "what": "conjugate by a Transformation"}
     # every formula involves rho(w) and rho(w)^-1: bound by the norms of the letters and of their inverses
-    nb = H.norm_bound(rep, inp["w"]) * H.norm_bound(rep, [H.swapcase(x) for x in inp["w"]])
-    b = 10 * nb ** 2 * (1 + float(np.abs(C).max()) ** 2)
+    wl = inp["w"] if kind != "subgroup" else inp["sub"][0] + inp["sub"][1] + inp["sub"][0]
+    nb = H.norm_bound(rep, wl) * H.norm_bound(rep, [H.swapcase(x) for x in wl])
+    b = 10 * nb ** (3 if kind == "subgroup" else 2) * (1 + float(np.abs(C).max()) ** 2)   # subgroup: inverses of inverses
+    if list(rep.relations) != rels or any(list(d.relations) != r for d, r in made):
+        return {"err": float("inf"), "what": "relations"}
     if got.shape != want.shape:
         return {"err": float("inf"), "what": "shape"}
     return {"err": float(np.max(np.abs(got - want))) / (1 + b) if got.size else 0.0}
@@ -541,8 +614,13 @@ def run_dor(inp):
 
 def judge_dor(inp, obs, lr):
     tags = {"kind": inp["kind"], "simple": inp["spec"]["simple"], "ring": inp["spec"]["ring"]}
+    if inp["kind"] == "subgroup":
+        tags["compute_inverse"] = inp.get("sub_inv", True)
     if "exc" in obs:
         return {"expected": "derived representation evaluates", "observed": obs, "tags": dict(tags, exc=obs["exc"])}
+    if obs.get("what") == "relations":
+        return {"expected": "a (derived) representation has the relators of its source, a fresh one has none", "observed": obs,
+                "tags": dict(tags, what="relations", rel_mode=inp["spec"].get("rel_mode"))}
     if not obs["err"] <= 1e-8:
         return {"expected": "derived(w) = F(rep(w)) within 1e-8 (relative)", "observed": obs, "tags": tags}
     return None
@@ -553,11 +631,18 @@ def judge_dor(inp, obs, lr):
 # =====================================================================================
 def gen_foxo(rng, n):
     for i in range(n):
-        names = list(rng.choice(["a", "ab", "abc", "abcd"]))
+        simple, names = rng.choice(FOX_NAMES[:4] + FOX_NAMES[5:])
+        names = list(names)
         dim = rng.randint(1, 4)
         mode = rng.choice(["free", "commuting", "torsion"])
-        spec = H.rand_spec(rng, ring=rng.choice(["Q", "Z"]) if mode == "free" else "Q", simple=True, n=dim, names=names,
-                           reassign=False, kind=rng.choice(["uni", "orth", "diag"]))
+        spec = H.rand_spec(rng, ring=rng.choice(["Q", "Z"]) if mode == "free" else "Q", simple=simple, n=dim, names=names,
+                           reassign=False, kind=rng.choice(["uni", "orth", "diag"]),
+                           dtmix=mode == "free" and rng.random() < 0.4)
+        # (rand_spec assigns the generators in random order: the order of asym_gens() is not the sorted one)
+        for h in spec["hist"]:
+            if rng.random() < 0.25:
+                h["g"] = H.swapcase(h["g"])        # assigned through the upper-case name
+        byname = {h["g"].lower(): h for h in spec["hist"]}
         rels = []
         if mode == "commuting" and len(names) >= 2:
             # all generators are polynomials in one matrix -> they commute
@@ -567,53 +652,74 @@ def gen_foxo(rng, n):
                 P = H.fmul(P, M)
                 h["m"] = H.enc(P)
             a, b = names[0], names[1]
-            rels = [a + b + a.upper() + b.upper(), b + a + b.upper() + a.upper()]
+            rels = [[a, b, H.swapcase(a), H.swapcase(b)], [b, a, H.swapcase(b), H.swapcase(a)]]
         elif mode == "torsion" and dim >= 2:
             # a rational rotation by 90 degrees in the first two coordinates: a^4 = 1
             M = H.fident(dim)
             M[0][0], M[0][1], M[1][0], M[1][1] = F(0), F(-1), F(1), F(0)
-            spec["hist"][0]["m"] = H.enc(M)
-            rels = [names[0] * 4, names[0].upper() * 4]
-        spec["relations"] = rels
+            byname[names[0].lower()]["m"] = H.enc(M)       # (its inverse is a rotation of order 4 as well)
+            rels = [[names[0]] * 4, [H.swapcase(names[0])] * 4]
+        spec["relations"] = [H.join_word(r, simple) for r in rels]
         alph = H.spec_names(spec)
-        yield {"spec": spec, "w": "".join(H.rand_letters(rng, alph, rng.choice([1, 2, 3, 5, 8, 13, 21]))),
-               "cplx": rng.random() < 0.25 and spec["ring"] == "Q", "phase": [1, 2]}
+        yield {"spec": spec, "w": H.rand_letters(rng, alph, H.cap_len(spec, rng.choice([1, 2, 3, 5, 8, 13, 21]))),
+               "cplx": rng.random() < 0.25 and spec["ring"] == "Q", "phase": [1, 2],
+               "C": H.enc(H.gen_matrix(rng, dim, "Q", "uni"))}
 
 
 def run_foxo(inp):
     rep = _cbuild(inp) if inp["cplx"] and not inp["spec"]["relations"] else H.build_rep(inp["spec"])
-    rep.relations = list(inp["spec"]["relations"])
+    rels_ok = list(rep.relations) == list(inp["spec"]["relations"])      # exactly the relators it was given
     n = inp["spec"]["n"]
-    w = inp["w"]
+    letters = list(inp["w"])      # a list of generator names (older corpus entries: a simple string)
+    w = H.join_word(letters, inp["spec"]["simple"])
     I = np.eye(n)
     gens = list(rep.asym_gens())
     D = np.asarray(rep.differential(w))
     lhs = np.asarray(rep[w]) - I
     rhs = sum(D[:, k * n:(k + 1) * n] @ (np.asarray(rep[g]) - I) for k, g in enumerate(gens))
-    b = H.norm_bound(rep, list(w)) * 10
-    out = {"fundamental": float(np.max(np.abs(lhs - rhs))) / (1 + b), "shape_ok": D.shape == (n, n * len(gens))}
+    b = H.norm_bound(rep, letters) * 10
+    out = {"fundamental": float(np.max(np.abs(lhs - rhs))) / (1 + b), "shape_ok": D.shape == (n, n * len(gens)),
+           "rels_ok": rels_ok}
     # D @ coboundary = I - rho(w)
     cb = np.asarray(rep.coboundary_matrix())
     out["coboundary"] = float(np.max(np.abs(D @ cb - (I - np.asarray(rep[w]))))) / (1 + b)
     if rep.relations:
         sat = max(float(np.max(np.abs(np.asarray(rep[r]) - I))) for r in rep.relations)
         cc = np.asarray(rep.cocycle_matrix())
+        simple = inp["spec"]["simple"]
+        nbr = 10 * max(H.norm_bound(rep, r) for r in _rel_letters(inp)) ** 2     # float error scale of the products involved
         out["satisfied"] = sat
-        out["cocycle_coboundary"] = float(np.max(np.abs(cc @ cb)))
+        out["cocycle_coboundary"] = float(np.max(np.abs(cc @ cb))) / (1 + nbr)
         out["cc_shape_ok"] = cc.shape == (n * len(rep.relations), n * len(gens))
+        # derived representations inherit the relations, hence have the same kind of cocycle matrix
+        Cm = H.tonp(inp["C"]) if "C" in inp else np.eye(n) + np.triu(np.ones((n, n)), 1)
+        for name, d in (("copy", R.Representation(rep)), ("conjugate", rep.conjugate(Cm)), ("dual", rep.dual())):
+            ccd = np.asarray(d.cocycle_matrix())
+            cbd = np.asarray(d.coboundary_matrix())
+            out["derived_" + name] = {"rels": list(d.relations) == list(rep.relations), "shape": ccd.shape == cc.shape,
+                                      "ann": float(np.max(np.abs(ccd @ cbd))) / (1 + nbr) / (1 + float(np.abs(Cm).max()) ** 4)}
     return out
 
 
 def judge_foxo(inp, obs, lr):
+    ps = {"parse_simple": inp["spec"]["simple"], "site": "Representation.differential"}
     if "exc" in obs:
-        return {"expected": "differential evaluates", "observed": obs, "tags": {"exc": obs["exc"]}}
+        return {"expected": "differential evaluates", "observed": obs, "tags": dict(ps, exc=obs["exc"])}
+    if not obs.get("rels_ok", True):
+        return {"expected": "a representation has exactly the relators it was given", "observed": "other relators",
+                "tags": dict(ps, law="relations", rel_mode=inp["spec"].get("rel_mode"))}
     if not obs["shape_ok"] or not obs.get("cc_shape_ok", True):
-        return {"expected": "block shapes", "observed": obs, "tags": {"shape": True}}
+        return {"expected": "block shapes", "observed": obs, "tags": dict(ps, shape=True)}
     for k in ("fundamental", "coboundary"):
         if not obs[k] <= 1e-8:
-            return {"expected": "rho(w) - I = sum_g D_g(w) (rho(g) - I)", "observed": obs, "tags": {"law": k}}
-    if "cocycle_coboundary" in obs and obs["satisfied"] <= 1e-9 and not obs["cocycle_coboundary"] <= 1e-7:
-        return {"expected": "cocycle_matrix @ coboundary_matrix = 0 for satisfied relations", "observed": obs, "tags": {"law": "cocycle"}}
+            return {"expected": "rho(w) - I = sum_g D_g(w) (rho(g) - I)", "observed": obs, "tags": dict(ps, law=k)}
+    for k, v in obs.items():
+        if k.startswith("derived_") and (not v["rels"] or not v["shape"] or (obs["satisfied"] <= 1e-9 and not v["ann"] <= 1e-8)):
+            return {"expected": "a derived representation keeps the relations; its cocycle matrix annihilates its coboundary matrix",
+                    "observed": {k: v}, "tags": dict(ps, law="cocycle", derived=k[8:])}
+    if "cocycle_coboundary" in obs and obs["satisfied"] <= 1e-9 and not obs["cocycle_coboundary"] <= 1e-8:
+        return {"expected": "cocycle_matrix @ coboundary_matrix = 0 for satisfied relations", "observed": obs,
+                "tags": dict(ps, law="cocycle")}
     return None
 
 
@@ -623,7 +729,7 @@ CLAUSES = [
            what="invert_gen, formal_inverse, simplify_word, commutator, fox_word_derivative, parse_word (both modes), generator-name guards vs the Lean model; words exhaustive to length 4 over {a,b,A,B}, random to length 60"),
     Clause("rep_corr", "corr", gen_rep, run_rep, judge_rep, lean=lean_rep, site="Representation.__setitem__/__getitem__/elements",
            budget={"quick": 150, "thorough": 4500},
-           what="assign/re-assign histories (both letters, compute_inverse on/off, invalid names, wrong shapes, singular matrices) then rep[w], rep.elements, generators dict vs Lean Rep.setGenerator/wordValue over Q and Z; GL(n) n=1..5, single- and multi-character names, words exhaustive to length 3 and random to length 60"),
+           what="assign/re-assign histories (both letters, compute_inverse on/off, invalid names, wrong shapes, singular matrices) then rep[w], rep.elements, generators dict vs Lean Rep.setGenerator/wordValue over Q, Z and Q(i) (complex generators); GL(n) n=1..5, single- and multi-character names, words exhaustive to length 3 and random to length 60"),
     Clause("derived_corr", "corr", gen_derived, run_derived, judge_derived, lean=lean_derived, site="Representation._compose and friends",
            budget={"quick": 144, "thorough": 5400},
            what="copy, conjugate (with/without inv_mat), dual, astype, subgroup (list/dict/compute_inverse=False), tensor_product, symmetric_square, gln_adjoint, sln_adjoint: derived[w] vs Lean model"),
